@@ -95,9 +95,23 @@ type Check struct {
 	// executed trace into follow-up cases in which the divergence would be decisive for the property
 	// itself. The follow-ups go through the normal pipeline: only a property clause they violate counts.
 	Amplify func(env *Env, in Case, tr Case, why string) []Case
+	// Mech, if set, is a second validation pass over the executed traces: the recorded search of each
+	// eligible trace is matched action by action against a mechanism-level specification (a trace
+	// module that re-uses the actions of a design module). Its rejections are diagnostics (prefix
+	// "mech:"), never verdicts: the properties do not prescribe an algorithm. An accepted search is a
+	// behaviour of the design module, whose invariants then prove its verdict.
+	Mech *Mech
 	// Extra runs after the standard pipeline (schedule replay, race runs, ...); it may add
 	// violations, notes and coverage.
 	Extra func(env *Env, res *Result) error
+}
+
+// Mech describes the mechanism-level validation pass of a check.
+type Mech struct {
+	Module  string
+	Project func(trace Case) Case // nil result: the trace is not eligible
+	// at most that many searches are matched per pipeline pass in the quick / thorough tier (0: all)
+	Quick, Thorough int
 }
 
 // Bad is one rejected step.
@@ -387,13 +401,17 @@ func firstLine(s string) string {
 // and returns the rejected steps. The number of events TLC consumed must match the number of
 // events recorded, otherwise the machinery is broken (exit 2), not the code.
 func Validate(env *Env, module string, traces []Case, tag string) ([]Bad, TLCStats, error) {
+	return ValidatePer(env, module, traces, tag, 400)
+}
+
+// ValidatePer is Validate with a bound on the number of traces per shard.
+func ValidatePer(env *Env, module string, traces []Case, tag string, per int) ([]Bad, TLCStats, error) {
 	var total TLCStats
 	if len(traces) == 0 {
 		return nil, total, nil
 	}
 	// shards are sized by the volume of the traces (white-box events make some traces a thousand times
 	// larger than others), not only by their number, and filled largest first into the lightest shard
-	per := 400
 	sizes := make([]int, len(traces))
 	totalBytes := 0
 	for i, t := range traces {
@@ -479,7 +497,19 @@ func validateShard(env *Env, module string, traces []Case, tag string) ([]Bad, T
 		nev += countEvents(t)
 	}
 	os.Remove(out)
-	run := TLCRun{Dir: env.SpecDir, Module: module, Cfg: module + ".cfg", Workers: 1, XmxMB: 3000,
+	cfg := module + ".cfg"
+	if raw, err := os.ReadFile(filepath.Join(env.SpecDir, cfg)); err == nil && bytes.Contains(raw, []byte("@MAXN@")) {
+		// the constant N of a mechanism-level trace module: the largest variable count of the searches in this shard
+		maxN := 1
+		for _, t := range norm {
+			if v, ok := t["n"].(float64); ok && int(v) > maxN {
+				maxN = int(v)
+			}
+		}
+		cfg = fmt.Sprintf("%s-%s.cfg", module, tag)
+		os.WriteFile(filepath.Join(env.SpecDir, cfg), bytes.ReplaceAll(raw, []byte("@MAXN@"), []byte(strconv.Itoa(maxN))), 0o644)
+	}
+	run := TLCRun{Dir: env.SpecDir, Module: module, Cfg: cfg, Workers: 1, XmxMB: 3000,
 		Timeout: 20 * time.Minute, Env: []string{"VERIF_TRACE=" + in, "VERIF_OUT=" + out},
 		Meta: filepath.Join(env.Tmp, "meta-"+tag)}
 	st, err := run.Run()
